@@ -31,6 +31,7 @@ type vhPool struct {
 }
 
 func vhNewPool(B, P int) *vhPool {
+	vhConcreteClock(true) // routing does not depend on the time of day (symbolic time arithmetic is a solver sink)
 	ids := make([]int32, B)
 	md := &meta.Response{}
 	for i := range ids {
@@ -123,6 +124,32 @@ func VH_C12_Routing(kind, B, P int) {
 			vhAssert(len(vp.chans[id]) == 0, "nothing-sent-for-unroutable-request")
 		}
 		vhAssert(len(vp.ctrl) == 0, "nothing-sent-for-unroutable-request")
+	case 7, 8: // fetch / produce naming two partitions: sent to their common leader, refused when the leaders differ
+		part2 := vhChoose("second_partition", P)
+		var req Request
+		if kind == 7 {
+			req = &pfetch.Request{Topics: []pfetch.RequestTopic{{Topic: "t", Partitions: []pfetch.RequestPartition{{Partition: int32(part)}, {Partition: int32(part2)}}}}}
+		} else {
+			req = &pproduce.Request{Topics: []pproduce.RequestTopic{{Topic: "t", Partitions: []pproduce.RequestPartition{{Partition: int32(part)}}}, {Topic: "t", Partitions: []pproduce.RequestPartition{{Partition: int32(part2)}}}}}
+		}
+		pr := vp.p.sendRequest(ctx, req, state)
+		if vp.leaders[part] == vp.leaders[part2] {
+			vp.landed(vp.leaders[part], req, "two-partition-request")
+		} else {
+			sent := len(vp.ctrl)
+			for _, id := range vp.ids {
+				sent += len(vp.chans[id])
+			}
+			vhAssert(sent == 0, "nothing-sent-for-a-request-spanning-two-leaders")
+			if sent == 0 {
+				_, err := pr.await(ctx)
+				vhAssert(err != nil, "request-spanning-two-leaders-is-refused")
+			}
+		}
+	case 9: // list offsets for one partition -> its leader
+		req := &plistoffsets.Request{ReplicaID: -1, Topics: []plistoffsets.RequestTopic{{Topic: "t", Partitions: []plistoffsets.RequestPartition{{Partition: int32(part), Timestamp: -1}}}}}
+		vp.p.sendRequest(ctx, req, state)
+		vp.landed(vp.leaders[part], req, "listoffsets")
 	case 5, 6: // group / transaction coordinator: looked up with FindCoordinator (right key and key type) on the
 		// control connection, then the request goes to the coordinator's broker
 		coord := vp.ids[vhChoose("coordinator", B)]
@@ -391,4 +418,95 @@ func VH_C12_ListOffsetsRouting() {
 	}
 	vhAssert(covered == len(entries), "every-requested-partition-is-in-exactly-one-sub-request")
 	vhReach("c12-listoffsets-routing")
+}
+
+// C12-H7: CreateTopics forces a metadata refresh and waits until every topic the controller reports as created is in
+// the cached layout (so that the next request for it can be routed), without waiting for topics that failed. The
+// harness plays the pool's discover loop: it receives the refresh requests on p.wake; the first refresh does not
+// list the new topics yet (propagation delay), the second does.
+func VH_C12_CreateTopicsRefresh(n int) {
+	vp := vhNewPool(2, 1)
+	names := []string{"new-a", "new-b", "new-c"}[:n]
+	codes := make([]int16, n)
+	anyOK := false
+	for i := range codes {
+		if vhBool("created_" + names[i]) {
+			anyOK = true
+		} else {
+			codes[i] = int16(TopicAlreadyExists)
+		}
+	}
+	ctx := context.Background()
+	req := &pcreatetopics.Request{}
+	for _, nm := range names {
+		req.Topics = append(req.Topics, pcreatetopics.RequestTopic{Name: nm, NumPartitions: 1, ReplicationFactor: 1})
+	}
+	done := false
+	var rerr error
+	go func() {
+		_, rerr = vp.p.roundTrip(ctx, req)
+		done = true
+	}()
+	vhRunAll()
+	ch := vp.chans[vp.ctrlID]
+	vhAssert(len(ch) == 1, "createtopics-sent-to-the-controller")
+	if len(ch) != 1 {
+		return
+	}
+	r := <-ch
+	res := &pcreatetopics.Response{}
+	for i, nm := range names {
+		res.Topics = append(res.Topics, pcreatetopics.ResponseTopic{Name: nm, ErrorCode: codes[i]})
+	}
+	r.res.resolve(res)
+	vhRunAll()
+	vhAssert(!done, "create-topics-forces-a-metadata-refresh")
+	if done {
+		return
+	}
+	// first refresh: the cluster does not list the new topics yet
+	select {
+	case notify := <-vp.p.wake:
+		notify.trigger()
+	default:
+		vhFail("create-topics-asks-the-discover-loop-for-a-refresh")
+	}
+	vhRunAll()
+	if !anyOK {
+		vhAssert(done && rerr == nil, "topics-that-failed-to-create-are-not-waited-for")
+		vhReach("c12-createtopics-none-created")
+		return
+	}
+	vhAssert(!done, "create-topics-waits-until-every-created-topic-is-in-the-cached-layout")
+	if done {
+		return
+	}
+	for i := 0; i < 3; i++ {
+		time.Sleep(3 * time.Second) // the back-off between refresh attempts passes
+	}
+	md := &meta.Response{ControllerID: vp.ctrlID}
+	for i, id := range vp.ids {
+		md.Brokers = append(md.Brokers, meta.ResponseBroker{NodeID: id, Host: "h", Port: 9092 + int32(i)})
+	}
+	md.Topics = []meta.ResponseTopic{{Name: "t", Partitions: []meta.ResponsePartition{{PartitionIndex: 0, LeaderID: vp.leaders[0]}}}}
+	for i, nm := range names {
+		if codes[i] == 0 {
+			md.Topics = append(md.Topics, meta.ResponseTopic{Name: nm, Partitions: []meta.ResponsePartition{{PartitionIndex: 0, LeaderID: vp.ids[0]}}})
+		}
+	}
+	select {
+	case notify := <-vp.p.wake:
+		vp.p.update(ctx, md, nil)
+		notify.trigger()
+	default:
+		vhFail("create-topics-keeps-refreshing-until-the-created-topics-are-listed")
+	}
+	vhRunAll()
+	vhAssert(done && rerr == nil, "create-topics-returns-once-the-created-topics-are-listed")
+	layout := vp.p.grabState().layout
+	for i, nm := range names {
+		_, ok := layout.Topics[nm]
+		vhAssert(ok == (codes[i] == 0), "cached-layout-lists-exactly-the-created-topics")
+	}
+	vhReach("c12-createtopics-refresh")
 }
